@@ -29,7 +29,7 @@ theorem run_is_output_history (k : BKind) (c : Cfg) (out : Val) (vs : List Val) 
     (∀ j (hj : j + 1 < (run k c out vs).length),
       (run k c out vs)[j + 1].before = (run k c out vs)[j].after) ∧
     ∀ r ∈ run k c out vs,
-      r.after = if r.value.isUndef || r.before.pyEq r.value then r.before else r.value := by
+      r.after = if r.value.isUndef || pyEqN r.before r.value then r.before else r.value := by
   refine ⟨run_values k c out vs, run_head_before k c out vs, run_linked k c out vs, fun r hr => ?_⟩
   rw [mem_run k c out vs r hr]
   exact after_eq k c _ _
@@ -48,7 +48,7 @@ theorem undef_refused (k : BKind) (c : Cfg) (out : Val) :
 theorem on_output_is_change_history (k : BKind) (c : Cfg) (out : Val) (vs : List Val) (i : Nat)
     (hi : i < c.onOutput.length) :
     (sendsOf .output i (run k c out vs)).map (fun s => (s.previous, s.value)) =
-      ((run k c out vs).filter fun r => !(r.before.pyEq r.after)).map
+      ((run k c out vs).filter Rec.isChange).map
         fun r => (some r.before, some r.after) := by
   have h1 := sendsOf_output_changes k c out vs i hi
   have h2 := run_changes k c out vs
@@ -62,7 +62,7 @@ theorem on_output_is_change_history (k : BKind) (c : Cfg) (out : Val) (vs : List
 theorem on_output_deliveries_without_filters (k : BKind) (c : Cfg) (out : Val) (vs : List Val) (i : Nat)
     (hi : i < c.onOutput.length) (hf : c.onOutput[i].filters = []) :
     (sendsOf .output i (run k c out vs)).map (·.result) =
-      ((run k c out vs).filter fun r => !(r.before.pyEq r.after)).map
+      ((run k c out vs).filter Rec.isChange).map
         fun r => some (rawData c.name r.before r.after) := by
   rw [sendsOf_output_results k c out vs i hi hf, ← run_changes k c out vs, List.map_map]
   rfl
@@ -151,7 +151,7 @@ theorem fsm_transition_is_one_assignment (c : Cfg) (out cv : Val) :
 theorem configured_order (c : Cfg) (out : Val) (vs : List Val) :
     ∀ r ∈ run .sblock c out vs, ∀ st, r.res = .ok st →
       st.sends.map (fun x => (x.slot, x.ev)) =
-        (if r.before.pyEq r.after then [] else c.onOutput.map fun e => (Slot.output, e))
+        (if pyEqN r.before r.after then [] else c.onOutput.map fun e => (Slot.output, e))
         ++ c.onEvery.map fun e => (Slot.every, e) := by
   intro r hr st hst
   have hm := mem_run _ c out vs r hr
@@ -160,13 +160,15 @@ theorem configured_order (c : Cfg) (out : Val) (vs : List Val) :
   have ho := sends_order _ c _ _ st ha
   have haft : r.after = st.out := by simp [Rec.after, hst]
   rw [ho, haft, hf.2.2.2, hf.2.1]
-  cases e : r.before.pyEq r.value <;> simp [everyEvs, e, pyEq_refl]
+  cases e : pyEqN r.before r.value with
+  | false => simp [everyEvs, e]
+  | true => simp [everyEvs, e, pyEqN_self e]
 
 /-- the same for a combinational block: on a change every on_output event once, in order -/
 theorem configured_order_cblock (c : Cfg) (out : Val) (vs : List Val) :
     ∀ r ∈ run .cblock c out vs, ∀ st, r.res = .ok st →
       st.sends.map (fun x => (x.slot, x.ev)) =
-        if r.before.pyEq r.after then [] else c.onOutput.map fun e => (Slot.output, e) := by
+        if pyEqN r.before r.after then [] else c.onOutput.map fun e => (Slot.output, e) := by
   intro r hr st hst
   have hm := mem_run _ c out vs r hr
   have ha : assign .cblock c r.before r.value = .ok st := by rw [hm] at hst; exact hst
@@ -174,7 +176,9 @@ theorem configured_order_cblock (c : Cfg) (out : Val) (vs : List Val) :
   have ho := sends_order _ c _ _ st ha
   have haft : r.after = st.out := by simp [Rec.after, hst]
   rw [ho, haft, hf.2.2.2, hf.2.1]
-  cases e : r.before.pyEq r.value <;> simp [everyEvs, e, pyEq_refl]
+  cases e : pyEqN r.before r.value with
+  | false => simp [everyEvs, e]
+  | true => simp [everyEvs, e, pyEqN_self e]
 
 /-- on_output before on_every_output: the slots of the sends of one assignment are a block of
     `output` followed by a block of `every` -/
@@ -207,7 +211,7 @@ theorem source_and_trigger (k : BKind) (c : Cfg) (out : Val) (vs : List Val) :
       s.raw.map (·.1) = ["trigger", "previous", "value", "source"] ∧
       s.source = some (.str c.name) ∧ s.trigger = some (.str "output") ∧
       s.previous = some r.before ∧ s.value = some r.value ∧
-      ((s.slot = .output ∧ c.onOutput[s.idx]? = some s.ev ∧ r.before.pyEq r.value = false) ∨
+      ((s.slot = .output ∧ c.onOutput[s.idx]? = some s.ev ∧ pyEqN r.before r.value = false) ∨
        (s.slot = .every ∧ k = .sblock ∧ c.onEvery[s.idx]? = some s.ev)) := by
   intro r hr s hs
   rw [mem_run _ c out vs r hr] at hs
@@ -237,8 +241,8 @@ theorem delivery_sees_new_output (k : BKind) (c : Cfg) (out : Val) (vs : List Va
     (CBlock), exactly when the output changed; the queueing comes before all sends -/
 theorem enqueue_iff_changed (k : BKind) (c : Cfg) (out : Val) (vs : List Val) :
     ∀ r ∈ run k c out vs, ∀ st, r.res = .ok st →
-      (st.changed = true ↔ r.before.pyEq r.after = false) ∧
-      (st.enq = true ↔ k = .sblock ∧ r.before.pyEq r.after = false) ∧
+      (st.changed = true ↔ pyEqN r.before r.after = false) ∧
+      (st.enq = true ↔ k = .sblock ∧ pyEqN r.before r.after = false) ∧
       (st.changed = false → r.after = r.before) ∧
       (st.enq = true → st.acts.head? = some .enqueue) := by
   intro r hr st hst
@@ -248,7 +252,9 @@ theorem enqueue_iff_changed (k : BKind) (c : Cfg) (out : Val) (vs : List Val) :
   have haft : r.after = st.out := by simp [Rec.after, hst]
   have h4 : st.enq = true → st.acts.head? = some .enqueue := fun h => by simp [Step.acts, h]
   refine ⟨?_, ?_, ?_, h4⟩ <;> rw [haft, hf.2.2.2] <;> (try rw [hf.2.2.1]) <;> rw [hf.2.1] <;>
-    cases e : r.before.pyEq r.value <;> simp [e, pyEq_refl]
+    (cases e : pyEqN r.before r.value with
+     | false => simp [e]
+     | true => simp [e, pyEqN_self e])
 
 /-! ### filters -/
 
@@ -343,6 +349,84 @@ example :
     ((sendsOf .output 1 (run .sblock c .undef vs)).map (·.result.isSome)) = [false, true, true] := by
   decide +kernel
 
+/-! ### float NaN: the value that is not equal to itself -/
+
+/-- NaN compares unequal to everything, itself included (`previous == value` is False even when
+    both are the very same object) -/
+theorem nan_is_never_equal (x : Val) : pyEqN nanVal x = false ∧ pyEqN x nanVal = false :=
+  ⟨pyEqN_nan_left x, pyEqN_nan_right x⟩
+
+/-- assigning NaN is ALWAYS a change — in particular NaN after NaN: the value is stored, a
+    sequential block is queued / `eval_block` returns True, every on_output event is sent exactly
+    once with previous = the output before (NaN after NaN: previous = NaN, value = NaN), then the
+    on_every_output events; for both block kinds -/
+theorem nan_after_nan_is_a_change (k : BKind) (c : Cfg) (out : Val) :
+    assign k c out nanVal =
+      .ok { out := nanVal, changed := true, enq := decide (k = .sblock),
+            sends := sendAll .output c.name c.onOutput out nanVal nanVal
+                     ++ sendAll .every c.name (everyEvs k c) out nanVal nanVal } ∧
+    ∀ i (hi : i < c.onOutput.length),
+      ((Rec.mk out nanVal (assign k c out nanVal)).sends.filter
+          (fun s => s.slot == .output && s.idx == i)).map (fun s => (s.ev, s.previous, s.value))
+        = [(c.onOutput[i], some out, some nanVal)] := by
+  have hu : nanVal.isUndef = false := rfl
+  refine ⟨assign_changed k c out nanVal hu (pyEqN_nan_right out), fun i hi => ?_⟩
+  rw [rec_sends_output k c out nanVal i hi]
+  have hp := send_pv c.onOutput[i] .output i c.name out nanVal nanVal
+  simp only [Sent.pv, Prod.mk.injEq] at hp
+  simp only [hu, pyEqN_nan_right, Bool.or_self, Bool.false_eq_true, if_false, List.map_cons, List.map_nil,
+    hp.1, hp.2]
+  rfl
+
+/-- whole histories: NaN assigned `n` times in a row (the same object or not) gives `n` sends of
+    every configured on_output event -/
+theorem repeated_nan_history (k : BKind) (c : Cfg) (out : Val) (n : Nat) (i : Nat)
+    (hi : i < c.onOutput.length) :
+    (sendsOf .output i (run k c out (List.replicate n nanVal))).length = n := by
+  have := congrArg List.length (sendsOf_output_changes k c out (List.replicate n nanVal) i hi)
+  simpa [changes_replicate_nan] using this
+
+/-- on values without NaN the model is exactly the pair of functions that the translation of
+    `set_output` / `eval_block` is proved equal to (`TrTie.translated_*_is_model` below) -/
+theorem assign_is_translated_code_without_nan (c : Cfg) (out v : Val)
+    (ho : isNan out = false) (hv : isNan v = false) :
+    assign .sblock c out v = setOutput c out v ∧ assign .cblock c out v = evalBlock c out v := by
+  simp [assign, setOutput, evalBlock, setOutputWith, evalBlockWith, pyEqN_eq_pyEq ho hv]
+
+/-! ### the first output of a run -/
+
+/-- whatever makes the first assignment of a run (initdef, an init event, restored persistent
+    state, the first evaluation of a CBlock): it is an assignment to a block whose output is UNDEF,
+    hence a change — every on_output event (and for a sequential block every on_every_output
+    event) is sent first of all with previous = UNDEF and value = the first output -/
+theorem first_output_announced (k : BKind) (c : Cfg) (v : Val) (vs : List Val) (hv : v.isUndef = false) :
+    (∀ i, i < c.onOutput.length →
+      (sendsOf .output i (run k c .undef (v :: vs))).head?.map (fun s => (s.previous, s.value))
+        = some (some .undef, some v)) ∧
+    (∀ i, i < (everyEvs k c).length →
+      (sendsOf .every i (run k c .undef (v :: vs))).head?.map (fun s => (s.previous, s.value))
+        = some (some .undef, some v)) ∧
+    (run k c .undef (v :: vs)).head?.map (fun r => (r.before, r.after)) = some (.undef, v) := by
+  refine ⟨fun i hi => ?_, fun i hi => ?_, ?_⟩
+  · have h := sendsOf_output_changes k c .undef (v :: vs) i hi
+    rw [changes_from_undef v vs hv] at h
+    have e : (fun s : Sent => (s.previous, s.value)) = Sent.pv := rfl
+    rw [e, ← List.head?_map, h]; rfl
+  · have h := sendsOf_every_all k c .undef (v :: vs) i hi
+    have e : (fun s : Sent => (s.previous, s.value)) = Sent.pv := rfl
+    rw [e, ← List.head?_map, h, run_cons]
+    simp [hv]
+  · rw [run_cons]
+    simp [after_eq, hv, pyEqN_undef_left hv]
+
+/-- non-vacuity: NaN, NaN, 1, NaN on a block with one on_output event — four changes -/
+example :
+    ((sendsOf .output 0 (run .sblock { name := "s", onOutput := [⟨"p0", "o0", []⟩] } .undef
+        [nanVal, nanVal, Val.int 1, nanVal])).map (fun s => (s.previous, s.value))) =
+      [(some .undef, some nanVal), (some nanVal, some nanVal), (some nanVal, some (Val.int 1)),
+       (some (Val.int 1), some nanVal)] := by
+  decide +kernel
+
 end Edzed.Output
 
 /-! ### the translation tie: the action order of `set_output` / `eval_block` -/
@@ -369,14 +453,14 @@ def runPrims (c : Cfg) : Val → Bool → Bool → List Sent → List Prim → R
 /-- the model's `setOutput` IS the meaning of the actions of `SBlock.set_output`, translated from the source -/
 theorem translated_set_output_is_model (c : Cfg) (out v : Val) :
     runPrims c out false false [] (setOutputActs out v c.onEvery) = setOutput c out v := by
-  unfold setOutputActs setOutput
+  unfold setOutputActs setOutput setOutputWith
   cases hu : v.isUndef <;> cases he : out.pyEq v <;> cases h : c.onEvery.isEmpty <;>
     simp [hu, he, h, runPrims, eventsOf]
 
 /-- the model's `evalBlock` IS the meaning of the actions of `CBlock.eval_block` -/
 theorem translated_eval_block_is_model (c : Cfg) (out v : Val) :
     runPrims c out false false [] (evalBlockActs out v) = evalBlock c out v := by
-  unfold evalBlockActs evalBlock
+  unfold evalBlockActs evalBlock evalBlockWith
   cases hu : v.isUndef <;> cases he : out.pyEq v <;> simp [hu, he, runPrims, eventsOf]
 
 /-- `eval_block` returns the change indicator -/
@@ -384,7 +468,7 @@ theorem translated_eval_block_returns_changed (c : Cfg) (out v : Val) (s : Step)
     (h : evalBlock c out v = .ok s) :
     (evalBlockActs out v).getLast? = some (.ret (some s.changed)) := by
   unfold evalBlockActs
-  unfold evalBlock at h
+  unfold evalBlock evalBlockWith at h
   cases hu : v.isUndef <;> cases he : out.pyEq v <;> simp [hu, he] at h ⊢ <;> (subst h; rfl)
 
 /-- an exception is raised only before anything was done -/
